@@ -84,6 +84,7 @@ def sched_plan(tier):
     """(programs, init, bound)"""
     one = [('push', 'i0', None, 'back', None, None)]
     two = one + [('push', 'i1', None, 'back', None, None)]
+    b3 = 1 if tier == 'quick' else 3
     units = [
         ([numbered([PUSH, PUSH], 'p'), [PULL, PULL]], [], None),
         ([numbered([PUSH, PUSH], 'p'), [PULL, PULL]], one, 2),
@@ -94,12 +95,12 @@ def sched_plan(tier):
         ([[PUSHBIG], [PEEK]], [], None),
         ([numbered([PUSH], 'p'), numbered([PUSH], 'r')], [], None),
         ([numbered([PUSH], 'p'), [PUSHF]], one, None),
-        ([numbered([PUSH], 'p'), [PULL], [PULL]], one, 2),
-        ([numbered([PUSH], 'p'), numbered([PUSH], 'r'), [PULL]], [], 2),
+        ([numbered([PUSH], 'p'), [PULL], [PULL]], one, b3),
+        ([numbered([PUSH], 'p'), numbered([PUSH], 'r'), [PULL]], [], b3),
         ([numbered([PUSH, PUSH], 'p'), numbered([PUSH], 'r'), [PULL, PULL]],
-         [], 2 if tier == 'quick' else 3),
+         [], b3),
         ([[('push', 'q0', 'q', 'back', None, None)],
-          [('pull', 'q', 'front', 0)], [PULL]], one, 2),
+          [('pull', 'q', 'front', 0)], [PULL]], one, b3),
     ]
     if tier == 'thorough':
         units += [
